@@ -14,7 +14,8 @@ CONSTANTS Variant,       \* "mpegts" | "fmp4" | "ll"
           Deltas,        \* video frame durations (ticks)
           AudioDur,      \* duration of one audio unit (ticks)
           VKinds,        \* set of <<ra, ps>> a video unit may have
-          Sizes, MaxWrites, MaxAU, StartDts, MinAUc, Emit, ConstSd, NGaps
+          Sizes, MaxWrites, MaxAU, StartDts, MinAUc, Emit, ConstSd, NGaps,
+          WeakVariant    \* "" = the model as implemented; otherwise one of the weakened variants of HlsMuxer.Weak
 
 VARIABLES ms, mon, cur, nid, nw, hist
 
@@ -24,7 +25,7 @@ NTk == Len(TrackKinds)
 LeadT == IF \E t \in 1..NTk : TrackKinds[t] = "v" THEN CHOOSE t \in 1..NTk : TrackKinds[t] = "v" ELSE 1
 
 Cfg ==
-  [ variant |-> Variant, lead |-> LeadT,
+  [ variant |-> Variant, lead |-> LeadT, weak |-> WeakVariant,
     leadStream |-> IF Variant = "mpegts" THEN 1 ELSE LeadT,
     segCount |-> SegCount, segMin |-> SegMin, partMin |-> PartMin, maxSize |-> MaxSize,
     ups |-> 1000, msn |-> 1, msd |-> 1, grid |-> 5, minAU |-> MinAUc, numGaps |-> NGaps, constSd |-> ConstSd,
